@@ -46,7 +46,8 @@ pub mod leveled;
 pub mod oep;
 pub use error::CKKSCompositionError;
 pub(crate) use error::{
-    checked_log_budget_sub, checked_mul_ct_log_budget, checked_mul_pt_log_budget, ensure_base2k_match, ensure_plaintext_alignment,
+    checked_log_budget_sub, checked_mul_ct_log_budget, checked_mul_pt_log_budget, ensure_base2k_match, ensure_compact,
+    ensure_plaintext_alignment,
 };
 
 #[derive(Debug, Clone, Copy, Default, PartialEq, Eq)]
